@@ -21,6 +21,14 @@ type c14Case struct {
 	WithClk  bool  `json:"with_clock"`
 	Ponder   bool  `json:"ponder"`    // go ponder ... then ponderhit
 	HitAfter int64 `json:"hit_after"` // simulated us between go ponder and ponderhit
+	// Noise: offsets (simulated us after the go, or after the ponderhit) at
+	// which the GUI sends an isready while the search is still running.
+	Noise []int64 `json:"noise,omitempty"`
+	// Real search leg: polls the real search executes before the GUI goes quiet
+	// (and, for ponder, before the ponderhit), so that the search is parked
+	// somewhere inside its tree when the deadline is computed and when it fires.
+	RunPolls int    `json:"run_polls,omitempty"`
+	FEN      string `json:"fen,omitempty"`
 }
 
 func (c c14Case) goLine() string {
@@ -130,6 +138,17 @@ func genC14Cases(rng *rand.Rand, n int, boundary []int64) []c14Case {
 			base.Ponder = true
 			base.HitAfter = pick(rng, []int64{0, 1, 1000, 500_000, 20_000_000, logUniform(rng, 1, 1e10)})
 		}
+		if rng.IntN(3) == 0 {
+			// isready arriving while the search runs must not move the deadline
+			lim := max(base.Own, base.MoveTime)
+			if base.MoveTime > 0 && !base.WithClk {
+				lim = base.MoveTime
+			}
+			for n, t := 1+rng.IntN(3), int64(0); n > 0; n-- {
+				t += 1 + rng.Int64N(lim*1000/2+1)
+				base.Noise = append(base.Noise, t)
+			}
+		}
 		k := 2 + rng.IntN(3)
 		for i := 0; i < k; i++ {
 			c := base
@@ -159,8 +178,8 @@ type C14Scenario struct {
 // blocking stub search: each go is followed by simulated time passing well
 // beyond the reported remaining time, so that the only thing that can end
 // the search is the driver's own deadline.
-func buildC14Scenario(cases []c14Case) *C14Scenario {
-	sc := &UCIScenario{World: "uci", Stub: true}
+func buildC14Scenario(cases []c14Case, real bool) *C14Scenario {
+	sc := &UCIScenario{World: "uci", Stub: !real}
 	add := func(op UStep) { sc.Steps = append(sc.Steps, op) }
 	add(UStep{Op: "in", Data: "uci\nsetoption name Ponder value true\nisready\n"})
 	add(UStep{Op: "drain"})
@@ -169,9 +188,15 @@ func buildC14Scenario(cases []c14Case) *C14Scenario {
 		if !c.White {
 			fen = c14BlackFEN
 		}
+		if c.FEN != "" {
+			fen = c.FEN
+		}
 		sc.Stubs = append(sc.Stubs, StubGo{Move: "0000"})
 		add(UStep{Op: "in", Data: "position fen " + fen + "\n"})
 		add(UStep{Op: "in", Data: c.goLine() + "\n"})
+		if real && c.RunPolls > 0 {
+			add(UStep{Op: "run", Polls: c.RunPolls})
+		}
 		if c.Ponder {
 			if c.HitAfter > 0 {
 				add(UStep{Op: "tick", DUS: c.HitAfter})
@@ -185,12 +210,49 @@ func buildC14Scenario(cases []c14Case) *C14Scenario {
 				limit = c.MoveTime
 			}
 		}
-		add(UStep{Op: "tick", DUS: limit*1000 + 7_000_000})
+		total := limit*1000 + 7_000_000
+		var at int64
+		for _, t := range c.Noise {
+			if t <= at || t >= total {
+				continue
+			}
+			add(UStep{Op: "tick", DUS: t - at})
+			at = t
+			add(UStep{Op: "in", Data: "isready\n"})
+			add(UStep{Op: "grant", N: 4})
+		}
+		add(UStep{Op: "tick", DUS: total - at})
 		add(UStep{Op: "in", Data: "stop\n"}) // harmless if the deadline already ended the search
 		add(UStep{Op: "drain"})
 	}
 	add(UStep{Op: "in", Data: "quit\n"})
 	return &C14Scenario{UCI: sc, Cases: cases}
+}
+
+// c14RealFENs are the roots of the real-search leg, white and black to move.
+var c14RealFENs = map[bool][]string{
+	true: {
+		"r3k2r/2pb1ppp/2pp1q2/p7/1nP1B3/1P2P3/P2N1PPP/R2QK2R w KQkq - 0 14",
+		"r1bqk2r/pppp1ppp/5n2/4b3/4P3/P1N5/1PP2PPP/R1BQKB1R w KQkq - 0 5",
+		"8/1R6/1p1K1kp1/p6p/P1p2P1P/6P1/1Pn5/8 w - - 0 67",
+	},
+	false: {
+		"4rrk1/2p1b1p1/p1p3q1/4p3/2P2n1p/1P1NR2P/PB3PP1/3R1QK1 b - - 2 24",
+		"r1bq1rk1/pp2b1pp/n1pp1n2/3P1p2/2P1p3/2N1P2N/PP2BPPP/R1BQ1RK1 b - - 2 10",
+		"8/5k2/1pnrp1p1/p1p4p/P6P/4R1PK/1P3P2/4R3 b - - 1 38",
+	},
+}
+
+// realiseC14Cases adapts drawn cases to the real-search leg: moderate clock
+// values (the search stays parked while simulated time passes, so the values
+// cost nothing, but every case needs a real search start), a root per colour
+// and a number of polls that leaves the search parked inside its tree.
+func realiseC14Cases(rng *rand.Rand, cases []c14Case) []c14Case {
+	for i := range cases {
+		cases[i].FEN = pick(rng, c14RealFENs[cases[i].White])
+		cases[i].RunPolls = 1 + rng.IntN(400)
+	}
+	return cases
 }
 
 // c14Obs is what was observed for one case.
